@@ -498,6 +498,58 @@ Proof.
     destruct (preserve_keeps_common_lemma old f k op p Ho Hp) as (rp & Hl & Hc).
     apply (IH (preserve old f) k rp ix a Hl (Hc ix a b Ha Hb) Hf').
 Qed.
+(* ---- module-wise re-creation = re-creation of the whole network ---------------------------------
+   EvolvableNetwork.recreate_network / EvolvableMultiInput.recreate_network call preserve_parameters
+   separately on the encoder, the head, each feature extractor (with local names), while the property
+   (and the end-to-end correspondence check) speaks about the named parameters of the whole network,
+   whose names are the local ones behind a prefix. *)
+Lemma lookup_app k (a b : named) :
+  lookup k (a ++ b) = match lookup k a with Some p => Some p | None => lookup k b end.
+Proof.
+  induction a as [|[k' q] a IH]; cbn; [reflexivity|]. destruct (String.eqb k k'); [reflexivity|exact IH].
+Qed.
+
+Lemma lookup_notin k (l : named) : ~ In k (map fst l) -> lookup k l = None.
+Proof.
+  induction l as [|[k' q] l IH]; cbn; [reflexivity|]. intros H.
+  destruct (String.eqb_spec k k') as [->|]; [exfalso; apply H; auto|]. apply IH. intros Hin. apply H. auto.
+Qed.
+
+Theorem preserve_app_lemma : forall (o1 o2 n1 n2 : named),
+  (forall k, In k (map fst n1) -> ~ In k (map fst o2)) ->
+  (forall k, In k (map fst n2) -> ~ In k (map fst o1)) ->
+  preserve (o1 ++ o2) (n1 ++ n2) = preserve o1 n1 ++ preserve o2 n2.
+Proof.
+  intros o1 o2 n1 n2 H1 H2. unfold preserve. rewrite map_app. f_equal.
+  - apply map_ext_in. intros [k p] Hin. unfold preserve_one. rewrite lookup_app.
+    destruct (lookup k o1); [reflexivity|].
+    rewrite (lookup_notin k o2); [reflexivity|]. apply H1. apply (in_map fst) in Hin. exact Hin.
+  - apply map_ext_in. intros [k p] Hin. unfold preserve_one. rewrite lookup_app.
+    rewrite (lookup_notin k o1); [reflexivity|]. apply H2. apply (in_map fst) in Hin. exact Hin.
+Qed.
+
+Definition rename (f : string -> string) (l : named) : named := map (fun kp => (f (fst kp), snd kp)) l.
+
+Lemma lookup_rename f (l : named) k :
+  (forall a b, f a = f b -> a = b) -> lookup (f k) (rename f l) = lookup k l.
+Proof.
+  intros Hinj. induction l as [|[k' q] l IH]; cbn; [reflexivity|].
+  destruct (String.eqb_spec k k') as [->|Hne].
+  - rewrite String.eqb_refl. reflexivity.
+  - destruct (String.eqb_spec (f k) (f k')) as [E|_]; [exfalso; apply Hne, Hinj, E|exact IH].
+Qed.
+
+Theorem preserve_rename_lemma : forall (f : string -> string) (old new : named),
+  (forall a b, f a = f b -> a = b) ->
+  preserve (rename f old) (rename f new) = rename f (preserve old new).
+Proof.
+  intros f old new Hinj. unfold preserve, rename at 2 3. rewrite !map_map. apply map_ext. intros [k p].
+  cbn [fst snd]. unfold preserve_one. rewrite (lookup_rename f old k Hinj).
+  destruct (lookup k old) as [op|]; [|reflexivity]. destruct (size_eqb _ _); reflexivity.
+Qed.
+
+Lemma append_inj (pre a b : string) : String.append pre a = String.append pre b -> a = b.
+Proof. induction pre as [|c pre IH]; cbn; intros H; [exact H|]. injection H as H. auto. Qed.
 End P.
 
 (* ---- the behaviour before the repair violates the property ---------------------------------- *)
